@@ -310,6 +310,11 @@ fn settings() -> Vec<(String, SettingsSpec)> {
     s.root = "r".into();
     s.alloc = Some("::alloc".into());
     v.push(("root=r,alloc=::alloc".into(), s));
+    // attributes for all types but no derive for all types: the struct's derive list is empty unless the
+    // CompactAs rule applies, its attribute list is not
+    let mut s = base.clone();
+    s.derives_all.clear();
+    v.push(("global-attrs-without-global-derives".into(), s));
     let mut s = base;
     s.derives_all.clear();
     s.attrs_all.clear();
